@@ -4,21 +4,24 @@
            --(Model/StackParser: nextobject + do_keyword)--> values.
    FULL STATEMENT (the property): for every value v, every ISO-conformant byte
    spelling s of v, every BUFSIZ and offset, reading s yields v.
-   PROVED HERE: (a) the object layer for every value tree of any depth over the
-   token sequence of v (C01_object_layer, C01_stream_toplevel, C01_pdf_indirect_object,
-   C01_ref_any_generation); (b) independence of BUFSIZ and offset for every byte
-   string (C01_bufsize_offset_independent, from C14).  (c) the byte layer for literal
-   strings in full (the C01_literal_string theorems): every sequence of admissible spellings of the bytes (raw, named escape, 1-3
-   digit octal escape, line continuation with LF / CR / CRLF, ignored backslash), under the two side conditions ISO
-   32000-1 7.3.4.2 itself imposes on a writer (a short octal escape is not followed by a raw digit, backslash-CR not by
-   a raw LF), is read by the real chunked tokenizer, for every BUFSIZ, as exactly one string token with exactly those
-   bytes; and every byte string has such a spelling; likewise for hexadecimal strings (any case, white
-   space anywhere, even digit count), names (raw regular bytes and #xx escapes) and integers (sign, leading zeros).
-   Real numbers (the value is Python's float()) and the composition of token spellings into the byte spelling of a
-   whole composite value are covered by correspondence only. *)
+   PROVED HERE, about the model: the full statement for the following family of spellings
+   (C01_value_bytes_read_back, C01_indirect_object_bytes_read_back, C01_every_value_has_a_spelling):
+   a value's tokens, each in ANY of its admissible spellings - literal strings (raw bytes, named escapes, 1-3 digit
+   octal escapes, line continuations with LF / CR / CRLF, ignored backslashes), hexadecimal strings (either case,
+   white space anywhere, even digit count), names (raw regular bytes and #xx), integers (sign, leading zeros), reals
+   ([sign] digits . digits), true / false / null / R / obj / endobj, [ ] << >> - separated by ANY amount of white
+   space (including NUL) and comments, or by nothing where a delimiter follows (minimal delimiters, including the
+   pending '>' after a hexadecimal string); for every BUFSIZ and offset (C01_bufsize_offset_independent, from C14).
+   Layers: (a) object layer for every value tree of any depth over the token sequence (C01_object_layer, ...);
+   (b) byte layer per token kind (C01_*_any_spelling, C01_*_in_context); (c) C01_token_sequence: a spelled token
+   sequence is tokenized into exactly its tokens from any state between tokens.
+   NOT in the proved family (sampled by the harness only): balanced unescaped parentheses inside literal strings, and
+   the numeric VALUE of a real (the token carries the spelling; float() is Python's).  Excluded because pdfminer
+   deviates (known findings): odd digit count in hexadecimal strings, raw CR / CRLF inside literal strings. *)
 From Coq Require Import ZArith List Bool String.
 From PdfV Require Import Base.CV Gen.LexClasses Model.Lexer Model.StackParser Model.StackRun
-  Proofs.LexerProofs Proofs.LexerInv Proofs.StackProofs Proofs.SpellingProofs Proofs.SpellingProofs2.
+  Proofs.LexerProofs Proofs.LexerInv Proofs.StackProofs Proofs.SpellingProofs Proofs.SpellingProofs2 Proofs.SpellingSeq
+  Proofs.SpellingValues.
 Import ListNotations.
 Open Scope Z_scope.
 Open Scope string_scope.
@@ -116,6 +119,22 @@ Example C01_scalar_spellings_nonvacuous :
   tokenize 1 5 (hx "2d30303137") = Some [(5, TInt (-17))].
 Proof. vm_compute. auto. Qed.
 
+(* token sequences: any admissible spelling of each token, any white space / comments / minimal delimiters between *)
+Theorem C01_token_sequence : forall ts bytes, spelled ts bytes -> forall st, gap st ->
+  tks (run st (bytes ++ [10])%list) = (rev ts ++ tks st)%list.
+Proof. exact spelled_tokens. Qed.
+
+(* END TO END: every such byte spelling of a value reads back as the value *)
+Theorem C01_value_bytes_read_back : forall v bytes, wfv v -> (forall n, v <> VRef n) -> spelled (tprint v) bytes ->
+  parse_bytes PStream bytes = Ok [norm v].
+Proof. exact value_bytes_read_back. Qed.
+Theorem C01_indirect_object_bytes_read_back : forall n g v bytes, wfv v ->
+  spelled ([TInt n; TInt g; TKw K_obj] ++ tprint v ++ [TKw K_endobj])%list bytes ->
+  parse_bytes PPdf bytes = Ok [VInt n; VInt g; VKw K_obj; norm v].
+Proof. exact indirect_object_bytes_read_back. Qed.
+Theorem C01_every_value_has_a_spelling : forall v, wfv v -> bwf v -> exists bytes, spelled (tprint v) bytes.
+Proof. exact every_value_has_a_spelling. Qed.
+
 (* non-vacuity: a nested value with escapes, spelled with minimal delimiters and comments *)
 Example C01_nonvacuous :
   (* [/A#42(<\(()>\101\<LF>)<</K[1 -2.5]/N null/R 3 0 R>>%c<LF><4 1<LF>4a>true] *)
@@ -144,3 +163,7 @@ Print Assumptions C01_integer_in_context.
 Print Assumptions C01_every_integer_has_a_spelling.
 Print Assumptions C01_leading_zeros.
 Print Assumptions C01_scalar_spellings_nonvacuous.
+Print Assumptions C01_token_sequence.
+Print Assumptions C01_value_bytes_read_back.
+Print Assumptions C01_indirect_object_bytes_read_back.
+Print Assumptions C01_every_value_has_a_spelling.
